@@ -375,8 +375,14 @@ func (g verifSAGen) GenerateConnectionID() (protocol.ConnectionID, error) {
 // CloseConn ends connection i the way a failed handshake does (destroy: its connection IDs leave the routing map).
 func (sa *VerifSA) CloseConn(i int) { sa.Conns[i].conn.destroy(errors.New("verif: connection closed by the harness")) }
 
-// RetireClientDCID removes the client-chosen DCID of connection i from the routing map: the call the connection ID
-// generator makes (connRunner.Remove) when that ID is retired after the handshake.
+// RetireClientDCID retires the client-chosen DCID of connection i through the connection's own connection ID
+// generator: the two calls the connection makes for it after the handshake (SetHandshakeComplete queues the ID and
+// forgets it as "initial client DCID", RemoveRetiredConnIDs removes it from the routing map once due). Going through
+// the generator matters: removing the key from the map directly would leave the generator believing it still owns the
+// ID, and a later RemoveAll would remove the key a second time (by then possibly another connection's).
+// Must be called while the connection's run loop is durably blocked (after synctest.Wait).
 func (sa *VerifSA) RetireClientDCID(i int) {
-	sa.s.tr.Remove(protocol.ParseConnectionID(sa.Conns[i].ClientDCID))
+	g := sa.Conns[i].conn.connIDGenerator
+	g.SetHandshakeComplete(0)
+	g.RemoveRetiredConnIDs(monotime.Now())
 }
